@@ -150,7 +150,7 @@ IsFilePath(s) == s \notin ExistingDirs /\ s \notin DirLike /\ s # ""
 
 \* permission strings, character by character: regex=^(0?[0-7]{3})?$
 PermChars == [ p0 \in {""} |-> <<>> ] @@
-             ("0600" :> <<"0","6","0","0">>) @@ ("644" :> <<"6","4","4">>) @@ ("0777" :> <<"0","7","7","7">>) @@ ("0640" :> <<"0","6","4","0">>) @@
+             ("0600" :> <<"0","6","0","0">>) @@ ("644" :> <<"6","4","4">>) @@ ("0777" :> <<"0","7","7","7">>) @@ ("0640" :> <<"0","6","4","0">>) @@ ("755" :> <<"7","5","5">>) @@ ("600" :> <<"6","0","0">>) @@
              ("888" :> <<"8","8","8">>) @@ ("64" :> <<"6","4">>) @@ ("07777" :> <<"0","7","7","7","7">>) @@ ("1644" :> <<"1","6","4","4">>) @@
              ("rw-r--r--" :> <<"r","w","-","r","-","-","r","-","-">>)
 Octal == {"0", "1", "2", "3", "4", "5", "6", "7"}
@@ -300,7 +300,7 @@ GoodAlt(f) ==
       [] f = R \o ".engine" -> Engines
       [] f = R \o ".packageName" -> {"#ABSENT", "", "routes", "myapi"}
       [] f = R \o ".outputPath" -> {"./gen/api/router.go"}
-      [] f = R \o ".outputFilePerms" -> {"#ABSENT", "", "644", "0777", "0640"}
+      [] f = R \o ".outputFilePerms" -> {"#ABSENT", "", "644", "0777", "0640", "755", "600"}
       [] f = R \o ".templateOverrides" -> {"#OBJ"}
       [] f = O \o ".openapi" -> Versions
       [] f \in {I \o ".description", I \o ".termsOfService"} -> {"#ABSENT", ""}
